@@ -99,7 +99,10 @@ def step (s : St) (op : List String) (impl : String) : LineOut St :=
       | none => { state := s, model := some "init-failed" }
       | some ring =>
         let n : Node := { ring := ring, file := if hasFile && !keys.isEmpty then some keys else none, hasFile := hasFile }
-        { state := upd { s with m := some n }, model := some (showNode "ok" n), monitor := mon hasFile true }
+        let m := if impl.startsWith "init-failed" then
+            some ("valid-file-refused", s!"the loader refused a keyring file of {keys.length} valid entries")
+          else mon hasFile true
+        { state := upd { s with m := some n }, model := some (showNode "ok" n), monitor := m }
   | ["restart"] =>
     match s.m with
     | none => { state := s, model := some "bad-op" }
